@@ -356,6 +356,9 @@ class Engine:
 				st.ctypes[name] = st.env[name].ctype
 		for g, ts in c.ghost.items():
 			st.env[g] = ts.make(g, st, self) if isinstance(ts, TypeSpec) else ts
+		for k_, h_ in self.lib.items():
+			if k_.startswith('__ghost_init__'):
+				h_(self, st)
 		st.entry_env = dict(st.env)
 		st.entry_heap = dict(st.heap)
 		if fi.is_generator:
@@ -377,9 +380,20 @@ class Engine:
 			raise Unsupported(f'{qualname}: no feasible path reaches an exit')
 
 	def _check_exit(self, st, out, c, fi):
+		self.obligations.append(Obligation(f'{self.prop}/{self.cur_label}/exit/{"normal" if out.kind != "raise" else "raise"}-reachable', list(st.pc), z3.BoolVal(False), {'expect': 'sat-any'}))
 		if out.kind == 'raise':
 			exc = out.value.exc
 			conds = [(n, cl) for n, cl in c.raises.items() if exc_isinstance(exc, n)]
+			if len(conds) > 1:
+				# the most specific declared class decides
+				def dist(n):
+					k, x = 0, exc
+					while x is not None and x != n:
+						x = EXC_PARENT.get(x, 'Exception' if x != 'BaseException' else None)
+						k += 1
+					return k
+				best = min(dist(n) for n, _ in conds)
+				conds = [(n, cl) for n, cl in conds if dist(n) == best]
 			if conds:
 				for n, cl in conds:
 					self.oblige(st, f'raises:{n}', 'only-when-stated', self.pure(cl, st, entry=True))
@@ -774,6 +788,11 @@ class Engine:
 				raise Unsupported(f'cannot havoc {name} = {v!r}')
 		for m in sorted(mutated, key=str):
 			name = m[1] if isinstance(m, tuple) else m
+			if inv is not None and name in inv.types:
+				if name not in assigned:
+					ts = inv.types[name]
+					st.env[name] = ts.make(name, st, self) if isinstance(ts, TypeSpec) else ts
+				continue
 			v = st.env.get(name)
 			if isinstance(v, Ref):
 				self.havoc_ref(st, v, name, only_args=isinstance(m, tuple))
@@ -783,6 +802,17 @@ class Engine:
 			y = st.ghosts['Y']
 			st.ghosts['Y'] = y.fresh_like('Y')
 			st.assume(st.ghosts['Y'].length >= 0)
+		# ghost state of library models (allocation counters, future -> call maps, ...) may be advanced by any call
+		# in the body: it is havocked as well and must be re-established by the invariant
+		if calls:
+			for g in sorted(st.ghosts):
+				if g == 'Y' or g.startswith('_const'):
+					continue
+				v = st.ghosts[g]
+				if isinstance(v, SV):
+					st.ghosts[g] = v.fresh_like(g)
+				elif z3.is_expr(v):
+					st.ghosts[g] = z3.Const(fresh_name(g), v.sort())
 
 	def _written_roots(self, cn, st):
 		"""Names whose object the call may write (decided by the callee's contract where the callee can be
@@ -926,7 +956,12 @@ class Engine:
 			st.assume(bool_term(self.pure(u, st)))
 		m0 = self.pure(inv.decreases, st) if inv.decreases is not None else None
 
+		entered = [0]
+
 		def after_body(s, out):
+			entered[0] += 1
+			# reachability canary: some path through the body must be satisfiable (else the invariant is contradictory)
+			self.obligations.append(Obligation(f'{self.prop}/{self.cur_label}/{site}/body-reachable', list(s.pc), z3.BoolVal(False), {'expect': 'sat-any'}))
 			if out.kind in ('normal', 'continue'):
 				if kind == 'for':
 					s.env[cname] = SInt(int_term(s.env[cname]) + 1)
@@ -955,6 +990,7 @@ class Engine:
 						r = after_body(s4, out)
 						if r is not None:
 							yield r
+			self._loop_vacuity(site, entered)
 		else:
 			c = st.env[cname]
 			for s3, b in self.branch(st, c.term < int_term(stop)):
@@ -971,6 +1007,12 @@ class Engine:
 							rr = after_body(s5, out)
 							if rr is not None:
 								yield rr
+			self._loop_vacuity(site, entered)
+
+	def _loop_vacuity(self, site, entered):
+		if not entered[0]:
+			# no path enters the loop body under the assumed invariant: the invariant (or what precedes it) is contradictory
+			self.obligations.append(Obligation(f'{self.prop}/{self.cur_label}/{site}/body-reachable', [z3.BoolVal(False)], z3.BoolVal(False), {'expect': 'sat-any'}))
 
 	def _after_loop(self, st, lid, site):
 		"""ghost assertions placed after a loop by the contract: proved here, available afterwards"""
@@ -1427,7 +1469,7 @@ class Engine:
 			if r is not None:
 				yield from r
 				return
-		if isinstance(obj, (str, bytes, SArr, SStr, SSeq, tuple, ExtObj, ExcInstance, SSet, SDict)):
+		if isinstance(obj, (str, bytes, SArr, SStr, SSeq, tuple, ExtObj, ExcInstance, SSet, SDict, SInt, SReal, int, float)):
 			yield st, BoundMethod(obj, attr)
 			return
 		raise Unsupported(f'attribute {attr} of {obj!r} (line {getattr(node, "lineno", "?")})')
@@ -1923,6 +1965,14 @@ class Engine:
 			st.assume(mk_not(cond))
 		if not self.feasible(st):
 			return
+		# constructor contracts: the fields __init__ creates
+		if c.self_fields and isinstance(callee_env.get('self'), Ref):
+			sref = callee_env['self']
+			rec = st.heap[sref.addr]
+			nf = dict(rec.fields)
+			for fn_, ts in c.self_fields.items():
+				nf[fn_] = ts.make(f'self.{fn_}', st, self) if isinstance(ts, TypeSpec) else ts
+			st.heap[sref.addr] = Record(rec.cls, nf)
 		# havoc written parameters
 		for w in c.writes:
 			v = callee_env.get(w)
@@ -1959,7 +2009,10 @@ class Engine:
 				st.assume(z3.And(result.term >= ct.lo, result.term <= ct.hi))
 		pe2 = PureEval(self, st, env_override=callee_env, old_heap=entry_heap, extra={'result': result, 'Y': result})
 		for e in c.ensures:
-			st.assume(pe2.eval_clause(e))
+			ev_ = pe2.eval_clause(e)
+			if ev_ is False:
+				raise Unsupported(f'postcondition {e!r} of {c.qualname} is plainly false at this call (contract error: missing returns / wrong type?)')
+			st.assume(ev_)
 		yield st, result
 
 	def _yield_type(self, c, env):
